@@ -260,6 +260,13 @@ CHECK_DEADLOCK FALSE
     thorough={"Agents": '"a1", "a2", "m1", "p1"', "TTL0s": "TTLsB", "MaxDup": 1}, timeout=6000)
 
 
+def agents_tv_stage(ctx):
+    """real auditor / monitor / publisher tasks in a real agent against a real node -> Trace_Agents.tla"""
+    ctx.drv_par = 4
+    trace_files_stage(ctx, "agents", "agents", ctx.pick(4, 8), module="Trace_Agents", cfg=SIMPLE_TRACE_CFG)
+    ctx.drv_par = None
+
+
 def adversary_tv_stage(ctx):
     """Altered / recombined / forged answers -> real JSON decoder + real verifier -> Trace_Balloon.tla"""
     trace_files_stage(ctx, "adversary", "adv", ctx.pick(8, 16))
@@ -443,6 +450,13 @@ PLANS = {
                 "loopback, real BatchProcessor, recording task manager and In-bus subscribers); batches injected with TTL in {5,4,3,2,1,0,-1,-3}, re-published "
                 "and re-delivered in storms; TV 2: 8 goroutines hammering the real Topology with joins/leaves and routing decisions (Each/Get) for seconds; "
                 "distinct = (agent, batch, ttl) receptions"),
+    "C19": plan("model_checking", [mc_history, agents_tv_stage],
+                "MC: MembershipSound / IncrementalSound of MC_History (every altered digest or path entry is rejected) are what makes 'verification fails' "
+                "equivalent to 'something the task binds was altered'; Agents.tla states which published values each task binds. TV: the real task "
+                "factories inside a real agent + real BatchProcessor + real HTTPClient + real apihttp handlers over a real RaftNode; per agent every "
+                "single alteration of a gossiped snapshot (each digest, the version up/down), of the stored snapshot, of the log's answer (history "
+                "entry, hyper entry, other event, absence claim, refusal), honest batches of 1-4 snapshots, empty / null-entry batches, and publisher "
+                "redelivery patterns with overlapping batches; distinct = (role, alteration, batch range)"),
     "C20": plan("model_checking", [mc_clienttopo, clienttopo_tv_stage, clientcalls_tv_stage],
                 "MC: ClientTopology.tla over urls {a,b,c}: every update (any primary incl. none, any list of <= 3 secondaries), every dead/alive mark, every "
                 "selection with each of the 5 read preferences, revive on/off, all operation sequences up to MaxOps (Safe + Fair), exhaustive. TV 1: seeded "
